@@ -99,7 +99,9 @@ func TestVerifDriver(t *testing.T) {
 		}
 		w := strings.Fields(line)
 		res := "bad-op"
-		if len(w) >= 2 && w[0] == "px" {
+		if len(w) >= 2 && w[0] == "ft" {
+			res = ftOp(w[1:])
+		} else if len(w) >= 2 && w[0] == "px" {
 			res = pxOp(w[1:])
 		} else if len(w) == 3 && w[0] == "ws" {
 			res = wsSession(w[1], w[2])
